@@ -215,6 +215,12 @@ def shrink(mod: Any, tape: list[int], signature: str, budget_s: float, params: d
     return best
 
 
+def _shrink_job(args: tuple[str, list[int], str, float, dict[str, Any] | None]) -> list[int]:
+    modname, tape, sig, budget, params = args
+    mod = importlib.import_module(modname)
+    return shrink(mod, tape, sig, budget, params)
+
+
 # ---------------------------------------------------------------------------
 # known findings
 # ---------------------------------------------------------------------------
@@ -338,6 +344,7 @@ def run_check(mod: Any, tier: str, base_seed: int, runs: int | None = None, proc
     lines: list[str] = []
     n_viol = 0
     known_hit: list[str] = []
+    todo: list[tuple[str, dict[str, Any]]] = []
     for sig, r in sorted(by_sig.items()):
         if sig in known:
             lines.append(f"KNOWN-FINDING: property={prop} {sig} {known[sig].get('what', '')} (hit {sig_counts[sig]}x)")
@@ -348,22 +355,41 @@ def run_check(mod: Any, tier: str, base_seed: int, runs: int | None = None, proc
                 r2["tape"] = small
                 write_replay(mod, r2, sig, r["vtext"], os.path.join(VERIF, known[sig]["replay"]))
             continue
-        # shrink, write, confirm in a fresh interpreter
-        small = shrink(mod, r["tape"], sig, 20.0 if tier == "quick" else 90.0, params)
-        r2 = dict(r)
-        r2["tape"] = small
-        name = hashlib.blake2b(sig.encode(), digest_size=6).hexdigest()
-        path = os.path.join(REPLAY_DIR, f"{prop}-{name}.json")
-        write_replay(mod, r2, sig, r["vtext"], path)
-        ok, out = _fresh_replay(mod.__name__, path)
-        if not ok:
-            harness_errors.append(f"violation {sig} (seed {r['seed']}) did not replay in a fresh interpreter:\n{out[-800:]}")
-            continue
-        n_viol += 1
-        exit_code = 1
-        lines.append(f"VIOLATION property={prop} replay={path}")
-        lines.append(f"  signature={sig} seed={r['seed']} hits={sig_counts[sig]} tape_len={len(small)}")
-        lines.append("  " + r["vtext"].replace("\n", "\n  ")[:1500])
+        todo.append((sig, r))
+    if todo:
+        # shrink in parallel under one shared wall budget, then confirm each in a fresh interpreter (also in parallel)
+        total = 45.0 if tier == "quick" else 240.0
+        per = max(4.0, min(20.0 if tier == "quick" else 90.0, total * procs / max(1, len(todo))))
+        jobs = [(mod.__name__, r["tape"], sig, per, params) for sig, r in todo]
+        try:
+            import multiprocessing as mp
+
+            with ProcessPoolExecutor(max_workers=procs, mp_context=mp.get_context("fork")) as ex:
+                smalls = list(ex.map(_shrink_job, jobs, timeout=per * 3 + 60))
+        except Exception as exc:  # noqa: BLE001
+            harness_errors.append(f"shrink pool failed: {type(exc).__name__}: {exc}")
+            smalls = [r["tape"] for _, r in todo]
+        paths = []
+        for (sig, r), small in zip(todo, smalls):
+            r2 = dict(r)
+            r2["tape"] = small
+            name = hashlib.blake2b(sig.encode(), digest_size=6).hexdigest()
+            path = os.path.join(REPLAY_DIR, f"{prop}-{name}.json")
+            write_replay(mod, r2, sig, r["vtext"], path)
+            paths.append(path)
+        from concurrent.futures import ThreadPoolExecutor
+
+        with ThreadPoolExecutor(max_workers=min(8, len(paths))) as tp:
+            confirmed = list(tp.map(lambda pth: _fresh_replay(mod.__name__, pth), paths))
+        for (sig, r), small, path, (ok, out) in zip(todo, smalls, paths, confirmed):
+            if not ok:
+                harness_errors.append(f"violation {sig} (seed {r['seed']}) did not replay in a fresh interpreter:\n{out[-800:]}")
+                continue
+            n_viol += 1
+            exit_code = 1
+            lines.append(f"VIOLATION property={prop} replay={path}")
+            lines.append(f"  signature={sig} seed={r['seed']} hits={sig_counts[sig]} tape_len={len(small)}")
+            lines.append("  " + r["vtext"].replace("\n", "\n  ")[:1500])
 
     # ---- evidence
     wall = time.monotonic() - t0
